@@ -3,6 +3,7 @@
 package tp
 
 import (
+	"context"
 	"fmt"
 	"net"
 	"net/http"
@@ -140,7 +141,8 @@ func Start(kind string, service *core.Service) (*Server, error) {
 		if err != nil {
 			return nil, err
 		}
-		srv := &fasthttp.Server{}
+		// the server's own body limit (4 MiB by default) is set beyond anything the checks generate
+		srv := &fasthttp.Server{MaxRequestBodySize: 256 << 20}
 		if err := service.Bind(srv); err != nil {
 			return nil, err
 		}
@@ -189,3 +191,10 @@ func NewGoPool(n int) *GoPool {
 }
 
 func (p *GoPool) Submit(f func()) { p.tasks <- f }
+
+// Raw sends request bytes through the client's IO chain and transport, bypassing the codec.
+func Raw(c *core.Client, request []byte) ([]byte, error) {
+	cc := core.NewClientContext()
+	cc.Init(c)
+	return c.Request(core.WithContext(context.Background(), cc), request)
+}
